@@ -4,8 +4,20 @@
   `d : Except ErrKind Bytes`, so every theorem holds for every metainfo, every validation rule
   and both values of `validate=`; the driver instantiates it with `Validate.dump`.
 
-  Every primitive effect is logged (`Eff`) so that ordering claims ("content is produced before
-  the target is touched") are statements about the log, not about the shape of this file.
+  The target is an abstract object whose *answers* to the calls the export code makes are part of
+  the state, so that every way the target can be unwritable is an input of the model:
+
+  * a stream is (content, position, mode flags, fault plan): `seekable()`'s answer, O_APPEND
+    semantics (`'ab'`, `'a+b'`: writes land at the end whatever the position), read-only
+    (`truncate`/`write` raise `io.UnsupportedOperation`, an OSError), text mode (`write(bytes)`
+    raises TypeError), "the k-th method call raises OSError" (non-seekable pipes whose `seek`
+    raises, closed pipes, custom objects) and a byte quota after which `write` raises (disk full);
+  * a file target is what is at the path (absent | regular file | directory | something else)
+    plus the operating system's answers: `os.path.exists`, does `open(…, 'wb')` raise, how many
+    bytes does the opened file accept, does `close()` raise.
+
+  Every primitive effect on a file is logged (`Eff`) so that ordering claims ("content is produced
+  before the target is touched") are statements about the log, not about the shape of this file.
 -/
 import Torf.Model.Export
 namespace Torf.Write
@@ -13,31 +25,108 @@ open Torf Torf.Export
 
 /-! ### streams -/
 
-structure Stream where
-  seekable : Bool
-  content : Bytes
-  pos : Nat
-  writeFails : Bool := false     -- `stream.write` raises OSError
+/-- what a method of the stream object can raise -/
+inductive Exc where
+  | os      -- OSError (incl. io.UnsupportedOperation, BrokenPipeError): becomes WriteError
+  | type    -- TypeError (bytes handed to a text-mode stream): not caught by `write_stream`
 deriving Repr, DecidableEq, Inhabited
 
-/-- `io.BytesIO.write` at the current position (zero-filled gap if the position is past the end) -/
+structure Stream where
+  content : Bytes
+  pos : Nat
+  seekable : Bool := true        -- the answer of `seekable()`
+  append : Bool := false         -- O_APPEND: every write lands at the end, `seek` only moves `pos`
+  readOnly : Bool := false       -- `truncate`/`write` raise io.UnsupportedOperation
+  text : Bool := false           -- text mode: `write(bytes)` raises TypeError
+  calls : Nat := 0               -- method calls made on the object so far
+  faultAt : Option Nat := none   -- the call with this index raises OSError (and has no effect)
+  quota : Option Nat := none     -- `write` accepts this many more bytes, then raises OSError
+  short : Bool := false          -- raw (unbuffered) stream: when the quota is hit `write` does not
+                                 -- raise but *returns* the number of bytes it took (RawIOBase)
+deriving Repr, DecidableEq, Inhabited
+
+/-- `io.BytesIO.write` / a file's `write` at the current position (zero-filled gap if the
+    position is past the end) -/
 def writeAt (content : Bytes) (pos : Nat) (b : Bytes) : Bytes :=
   (content ++ List.replicate (pos - content.length) 0).take pos ++ b ++ content.drop (pos + b.length)
+
+/-- `truncate(n)`: cut, or extend with zeros -/
+def resize (content : Bytes) (n : Nat) : Bytes :=
+  content.take n ++ List.replicate (n - content.length) 0
+
+/-- a computation on the stream object: result or exception, and the object afterwards -/
+def SM (α : Type) : Type := Stream → Except Exc α × Stream
+
+def SM.pure (a : α) : SM α := fun s => (.ok a, s)
+def SM.bind (m : SM α) (f : α → SM β) : SM β := fun s =>
+  match m s with
+  | (.error x, s1) => (.error x, s1)
+  | (.ok a, s1) => f a s1
+instance : Monad SM where
+  pure := SM.pure
+  bind := SM.bind
+
+/-- every method call is counted; the call with index `faultAt` raises OSError -/
+def enter : SM Unit := fun s =>
+  (if s.faultAt = some s.calls then .error .os else .ok (), { s with calls := s.calls + 1 })
+
+/-- `stream.seekable()` -/
+def seekableQ : SM Bool := do
+  enter
+  fun s => (.ok s.seekable, s)
+
+/-- `stream.seek(0)` -/
+def seek0 : SM Unit := do
+  enter
+  fun s => (.ok (), { s with pos := 0 })
+
+/-- `stream.truncate(n)` (the position does not move) -/
+def truncate (n : Nat) : SM Unit := do
+  enter
+  fun s => if s.readOnly then (.error .os, s) else (.ok (), { s with content := resize s.content n })
+
+/-- how many of `n` bytes the stream accepts -/
+def Stream.accepts (s : Stream) (n : Nat) : Nat :=
+  match s.quota with
+  | none => n
+  | some q => min q n
+
+/-- where the accepted bytes go -/
+def Stream.put (s : Stream) (b : Bytes) : Stream :=
+  if !s.seekable then { s with content := s.content ++ b }                      -- a sink only appends
+  else if s.append then { s with content := s.content ++ b, pos := s.content.length + b.length }
+  else { s with content := writeAt s.content s.pos b, pos := s.pos + b.length }
+
+/-- `stream.write(b)` -/
+def writeB (b : Bytes) : SM Unit := do
+  enter
+  fun s =>
+    if s.text then (.error .type, s)
+    else if s.readOnly then (.error .os, s)
+    else
+      let k := s.accepts b.length
+      let s' := { s.put (b.take k) with quota := s.quota.map (· - k) }
+      -- (the number of bytes written is returned; `write_stream` does not look at it)
+      (if k < b.length && !s.short then .error .os else .ok (), s')
+
+/-- the `try:` block of `write_stream` -/
+def writeStreamBody (content : Bytes) : SM Unit := do
+  -- if stream.seekable(): stream.seek(0); stream.truncate(0)
+  if (← seekableQ) then
+    seek0
+    truncate 0
+  -- stream.write(content)
+  writeB content
 
 /-- `Torrent.write_stream(stream)` -/
 def writeStream (d : Except ErrKind Bytes) (s : Stream) : Except ErrKind Unit × Stream :=
   match d with
   | .error e => (.error e, s)                                  -- content = self.dump(…)
   | .ok content =>
-    -- if stream.seekable(): stream.seek(0); stream.truncate(0)
-    let s1 : Stream := if s.seekable then { s with content := [], pos := 0 } else s
-    -- stream.write(content)
-    if s1.writeFails then (.error .write, s1)                  -- OSError ↦ WriteError
-    else if s1.seekable then
-      (.ok (), { s1 with content := writeAt s1.content s1.pos content, pos := s1.pos + content.length })
-    else
-      -- a non-seekable sink only ever appends
-      (.ok (), { s1 with content := s1.content ++ content })
+    match writeStreamBody content s with
+    | (.ok (), s') => (.ok (), s')
+    | (.error .os, s') => (.error .write, s')                  -- except OSError: raise WriteError
+    | (.error .type, s') => (.error (.internal "TypeError"), s')
 
 /-! ### files -/
 
@@ -45,45 +134,75 @@ inductive Node where
   | absent
   | file (content : Bytes)
   | dir
+  | other     -- occupies the name, neither regular file nor directory (symlink loop, dangling
+              -- link, socket, link to a device): opening it for writing never changes the path
+deriving Repr, DecidableEq, Inhabited
+
+/-- the operating system's answers to the calls `write(filepath)` makes on this path -/
+structure Env where
+  existsAns : Bool               -- `os.path.exists(filepath)`
+  openErr : Bool := false        -- `open(filepath, 'wb')` raises OSError (EACCES, EISDIR, ENOENT,
+                                 -- ENOTDIR, ETXTBSY, ELOOP, ENAMETOOLONG, EROFS, EMFILE, …)
+  quota : Option Nat := none     -- the opened file accepts this many bytes, then write/flush raises
+  closeErr : Bool := false       -- `close()` raises OSError although every byte was accepted
 deriving Repr, DecidableEq, Inhabited
 
 /-- the part of the file system `write(filepath)` can see or change -/
 structure Target where
   node : Node
-  parentOk : Bool := true       -- the parent directory exists (else open() raises ENOENT/ENOTDIR)
+  env : Env
 deriving Repr, DecidableEq, Inhabited
 
 inductive Eff where
   | existsCheck | dump | open_ | writeFile
 deriving Repr, DecidableEq
 
-def Target.exists_ (t : Target) : Bool := t.node != .absent
+/-- a regular file can be created or rewritten at the path -/
+def Node.regular : Node → Bool
+  | .absent | .file _ => true
+  | .dir | .other => false
 
-/-- `open(filepath, 'wb')` succeeds iff the parent exists and the path is not a directory
-    (the process may write: the harness runs as root) -/
-def Target.openable (t : Target) : Bool :=
-  t.parentOk && t.node != .dir
+/-- the path after an `open(…, 'wb')` that succeeded and `b` bytes that reached it -/
+def Node.store (n : Node) (b : Bytes) : Node :=
+  if n.regular then .file b else n
 
-/-- `Torrent.write(filepath, overwrite=ov)`; `writeFault = some n`: `f.write` raises OSError
-    after `n` bytes reached the file (disk full, …) -/
-def write (d : Except ErrKind Bytes) (ov : Bool) (writeFault : Option Nat) (t : Target) :
+/-- the answers of an operating system that refuses nothing it could grant (root, healthy disk):
+    the path exists iff something is there, opening fails iff the parent is unusable or the path
+    is a directory -/
+def Env.natural (n : Node) (parentOk : Bool := true) : Env :=
+  { existsAns := n != .absent, openErr := !parentOk || n == .dir }
+
+/-- `open(filepath, 'wb')` raises OSError: the operating system says so, or the path is a directory
+    (EISDIR, whoever asks) -/
+def Target.openFails (t : Target) : Bool := t.env.openErr || t.node == .dir
+
+def Env.accepts (e : Env) (n : Nat) : Nat :=
+  match e.quota with
+  | none => n
+  | some q => min q n
+
+/-- `Torrent.write(filepath, overwrite=ov)` -/
+def write (d : Except ErrKind Bytes) (ov : Bool) (t : Target) :
     Except ErrKind Unit × Target × List Eff :=
   -- if not overwrite and os.path.exists(filepath): raise WriteError(EEXIST)
-  if !ov && t.exists_ then (.error .write, t, [.existsCheck])
+  if !ov && t.env.existsAns then (.error .write, t, [.existsCheck])
   else
     let log0 := if ov then [] else [Eff.existsCheck]
     -- content = io.BytesIO(); self.write_stream(content, validate=validate); content.seek(0)
-    let (r, buf) := writeStream d { seekable := true, content := [], pos := 0 }
+    let (r, buf) := writeStream d { content := [], pos := 0 }
     match r with
     | .error e => (.error e, t, log0 ++ [.dump])
     | .ok () =>
       -- with open(filepath, 'wb') as f:
-      if !t.openable then (.error .write, t, log0 ++ [.dump, .open_])
+      if t.openFails then (.error .write, t, log0 ++ [.dump, .open_])
       else
-        -- f.write(content.read())
-        match writeFault with
-        | some n => (.error .write, { t with node := .file (buf.content.take n) },
-                     log0 ++ [.dump, .open_, .writeFile])
-        | none => (.ok (), { t with node := .file buf.content }, log0 ++ [.dump, .open_, .writeFile])
+        -- f.write(content.read()); f.close()
+        let data := buf.content
+        let k := t.env.accepts data.length
+        let t' := { t with node := t.node.store (data.take k) }
+        let log := log0 ++ [.dump, .open_, .writeFile]
+        if k < data.length then (.error .write, t', log)        -- except OSError: raise WriteError
+        else if t.env.closeErr then (.error .write, t', log)
+        else (.ok (), t', log)
 
 end Torf.Write
